@@ -19,6 +19,7 @@ def step : List String → String
   | "vgrant" :: _ => "skip"
   | "vtime" :: _ => "skip"
   | "vclaw" :: _ => "skip"
+  | "vunconv" :: _ => "skip"
   | "vmon" :: _ => "skip"
   | _ => "bad-op"
 
